@@ -471,6 +471,20 @@ impl VSession {
                 .map_err(|_| ())
         }
     }
+    /// a transfer frame from the peer (for a handle that may or may not be attached)
+    pub fn on_incoming_transfer(
+        &mut self,
+        transfer: Transfer,
+        payload: Payload,
+    ) -> impl Future<Output = Result<(), ()>> + '_ {
+        async move {
+            self.0
+                .on_incoming_transfer(transfer, payload)
+                .await
+                .map(|_| ())
+                .map_err(|_| ())
+        }
+    }
     pub fn on_incoming_begin(&mut self, channel: u16, begin: Begin) -> Result<(), ()> {
         self.0
             .on_incoming_begin(endpoint::IncomingChannel(channel), begin)
